@@ -62,12 +62,28 @@ def split_executions(path):
     """list of executions (each a list of event dicts) in a trace file"""
     out = []
     for ln in open(path):
-        e = json.loads(ln)
+        try:
+            e = json.loads(ln)
+        except ValueError:
+            break             # the process was stopped in the middle of a line (CPU limit, crash): what follows is not an execution
         if e["e"] == "Reset":
             out.append([])
         elif out:
             out[-1].append(e)
     return out
+
+
+def _run_limited(cmd, out, cpu=40):
+    """a reference run that does not return (a decoder that never stops, a skip that spins) must not hang the check: CPU limit, reported
+    like a crash (SIGXCPU / SIGKILL: negative return code)"""
+    def lim():
+        import resource
+        resource.setrlimit(resource.RLIMIT_CPU, (cpu, cpu + 5))
+        resource.setrlimit(resource.RLIMIT_FSIZE, (4 << 30, 4 << 30))
+    try:
+        return subprocess.run(cmd, stdout=out, stderr=subprocess.PIPE, env=V.run_env(), preexec_fn=lim, timeout=20 * cpu)
+    except subprocess.TimeoutExpired:
+        return subprocess.CompletedProcess(cmd, -9, b"", b"TIMEOUT")
 
 
 def reference_truths(drv, archives, sc, tag="ref"):
@@ -89,7 +105,7 @@ def reference_truths(drv, archives, sc, tag="ref"):
         tr = os.path.join(sc, "%s_trace_%d.ndjson" % (tag, k))
         open(jf, "w").write("\n".join(sub) + "\n")
         with open(tr, "w") as out:
-            p = subprocess.run([drv, jf], stdout=out, stderr=subprocess.PIPE, env=V.run_env())
+            p = _run_limited([drv, jf], out)
         return k, subarch, tr, p
     with cf.ThreadPoolExecutor(max_workers=V.NCPU) as ex:
         for k, subarch, tr, p in ex.map(one, range(n)):
@@ -106,7 +122,7 @@ def reference_truths(drv, archives, sc, tag="ref"):
                 tr = os.path.join(sc, "%s_redo.ndjson" % tag)
                 open(jf, "w").write("\n".join(ref_jobs([a], sc)) + "\n")
                 with open(tr, "w") as out:
-                    q = subprocess.run([drv, jf], stdout=out, stderr=subprocess.PIPE, env=V.run_env())
+                    q = _run_limited([drv, jf], out)
                 e2 = split_executions(tr)
                 if q.returncode == 0 and len(e2) >= 2:
                     res_all[a] = truth_from_traces(e2[0], e2[1])
